@@ -37,7 +37,7 @@ def wf(x, np):
     if exact and (up, low, pr) != exp: return 'upper/lower/precision are not max code*2^-n_frac, min code*2^-n_frac, 2^-n_frac: %r' % ((str(up), str(low), str(pr)),)
     return None
 
-OPS = ['ctor', 'ctor_raw', 'ctor_dtype', 'ctor_like', 'ctor_like_scaled', 'best_sizes', 'set', 'call', 'setitem', 'resize', 'like', 'add', 'sub', 'mul', 'const', 'div', 'floordiv', 'mod', 'neg', 'abs', 'lshift', 'rshift', 'invert', 'and', 'getitem', 'sum', 'cumsum', 'dot', 'max', 'transpose', 'equal', 'conj', 'resize_rejected', 'minmax_out', 'np_inplace']
+OPS = ['ctor', 'ctor_raw', 'ctor_dtype', 'ctor_like', 'ctor_like_scaled', 'best_sizes', 'set', 'call', 'setitem', 'resize', 'like', 'add', 'sub', 'mul', 'const', 'div', 'floordiv', 'mod', 'neg', 'abs', 'lshift', 'rshift', 'invert', 'and', 'getitem', 'sum', 'cumsum', 'dot', 'max', 'transpose', 'equal', 'conj', 'resize_rejected', 'minmax_out', 'np_inplace', 'setitem_rejected']
 
 def A_fmt(z): return (bool(z.signed), int(z.n_word), int(z.n_frac))
 def rand_fmt(rng):
@@ -147,6 +147,16 @@ def run_program(rng, res, pid):
                     nontriv = True; why = wf(w, np)
                     if why:
                         res.fail({'program': pid, 'log': log, 'object': -1, 'fmt': A_fmt(w), 'how': how}, 'C02: after %s (an in-place NumPy function on the object, or a write into the array a reading returned) an object is not well-formed' % how, got=why); return
+                elif op == 'setitem_rejected':
+                    # an indexed write that is rejected (a sequence that does not fit the selection; real or complex) leaves the object as it was
+                    if np.asarray(x.val).ndim == 1 and np.asarray(x.val).size >= 2 and not np.iscomplexobj(x.val):
+                        before = (A_fmt(x), lib.codes_of(x), x.dtype, str(x.vdtype))
+                        bad_ = rng.choice([[1j, 2j, 3j, 4j, 5j], [0.5, 0.25, 1.0, 2.0, 3.0, 1.0, 1.0], [1 + 1j] * 7])
+                        try: x[0:2] = bad_; rejected = False
+                        except ValueError: rejected = True
+                        after = (A_fmt(x), lib.codes_of(x) if not np.iscomplexobj(x.val) else 'complex buffer', x.dtype, str(x.vdtype))
+                        if rejected and after != before:
+                            res.fail({'program': pid, 'log': log, 'object': pool.index(x), 'fmt': before[0]}, 'C02: a rejected indexed write (ValueError) left the object half-updated', expected=before, got=after); return
                 elif op == 'resize_rejected':
                     # a resize that is rejected (dtype= together with another size parameter) leaves the object as it was
                     before = (A_fmt(x), lib.codes_of(x) if not np.iscomplexobj(x.val) else None, x.dtype)
